@@ -1,10 +1,115 @@
 import Oas3Model.Model.Naming
 import Oas3Model.Gen.Naming
+import Oas3Model.Proofs.Naming
 namespace Oas3.Props.C09
 open Oas3.Naming
 
 /-- Every Rust keyword of the reference list is in the generator's FORBIDDEN_IDENTIFIERS table
 (regenerated from the source): removing a word from the Rust table breaks this proof. -/
 theorem keywords_covered : ∀ k ∈ rustKeywords, k ∈ Oas3.Gen.forbidden := by decide
+
+/-- Every prelude / derive-macro name the generated module would shadow is in the generator's
+`RESERVED_TYPE_NAMES`-style table (regenerated from the source). -/
+theorem shadowed_covered : ∀ k ∈ shadowed, k ∈ Oas3.Gen.prelude := by decide
+
+/-- Every word of the generated forbidden table has identifier shape (so `r#word` is lexically fine). -/
+theorem forbidden_shape : ∀ k ∈ Oas3.Gen.forbidden, identShape k = true := by decide
+
+/-- Appending `Type` to any word of the generated prelude table gives a legal type name. -/
+theorem prelude_suffix_legal :
+    ∀ k ∈ Oas3.Gen.prelude, legal .type (k ++ "Type".toList) = true := by decide
+
+/-! ### `sanitize`, `to_snake_case` -/
+
+theorem sanitize_charset (tr : Tr) (s : List Char) : ∀ c ∈ sanitize tr s, okc c = true :=
+  sanitize_okc tr s
+
+theorem sanitize_edges (tr : Tr) (s : List Char) :
+    (sanitize tr s).head? ≠ some '_' ∧ (sanitize tr s).getLast? ≠ some '_' :=
+  ⟨sanitize_head tr s, sanitize_getLast tr s⟩
+
+theorem toSnake_charset (s : List Char) (h : ∀ c ∈ s, okc c = true) :
+    ∀ c ∈ toSnake s, (c.isLower || c.isDigit || c == '_') = true :=
+  toSnake_lduc s h
+
+/-! ### the three sanitisers yield legal Rust identifiers (for EVERY transliteration `tr`) -/
+
+/-- KEY THEOREM. Depends on `keywords_covered` (rustKeywords ⊆ generated FORBIDDEN table). -/
+theorem field_legal_char (tr : Tr) (s : List Char) :
+    legal .field (toRustFieldName Oas3.Gen.forbidden tr s) = true ∨
+    toRustFieldName Oas3.Gen.forbidden tr s = ['_'] ∨
+    toRustFieldName Oas3.Gen.forbidden tr s = "r#crate".toList ∨
+    toRustFieldName Oas3.Gen.forbidden tr s = "r#super".toList ∨
+    rawPassthrough s = true :=
+  field_legal_aux Oas3.Gen.forbidden keywords_covered forbidden_shape tr s
+
+/-- Depends on `shadowed_covered` (shadowed ⊆ generated prelude table). -/
+theorem type_legal_char (tr : Tr) (s : List Char) :
+    legal .type (toRustTypeName Oas3.Gen.prelude tr s) = true ∨
+    toRustTypeName Oas3.Gen.prelude tr s = "r#Self".toList :=
+  type_legal_aux Oas3.Gen.prelude shadowed_covered prelude_suffix_legal tr s
+
+theorem const_legal (tr : Tr) (s : List Char) : legal .const (toRustConstName tr s) = true :=
+  const_legal_aux tr s
+
+/-! ### uniqueness helpers -/
+
+theorem ensureUnique_fresh (b : List Char) (used : List (List Char)) (r : List Char) :
+    ensureUnique b used = some r → r ∉ used := ensureUnique_fresh_aux
+
+theorem ensureUnique_total (b : List Char) (used : List (List Char)) :
+    (ensureUnique b used).isSome = true := ensureUnique_total_aux b used
+
+theorem ensureUniqueSnake_fresh (b : List Char) (used : List (List Char)) (r : List Char) :
+    ensureUniqueSnake b used = some r → r ∉ used := ensureUniqueSnake_fresh_aux
+
+theorem ensureUniqueSnake_total (b : List Char) (used : List (List Char)) :
+    (ensureUniqueSnake b used).isSome = true := ensureUniqueSnake_total_aux b used
+
+/-! ### non-vacuity -/
+
+/-- identity transliteration (ASCII input) -/
+abbrev idTr : Tr := fun c => [c]
+abbrev F := Oas3.Gen.forbidden
+abbrev P := Oas3.Gen.prelude
+
+-- ordinary behaviour of each sanitiser
+example : sanitize idTr "__foo--bar!!".toList = "foo_bar".toList := by decide
+example : toSnake "fooBar_baz".toList = "foo_bar_baz".toList := by decide
+example : toRustFieldName F idTr "type".toList = "r#type".toList := by decide
+example : toRustFieldName F idTr "userId".toList = "user_id".toList := by decide
+example : toRustFieldName F idTr "-1st".toList = "negative_1st".toList := by decide
+example : toRustFieldName F idTr "1st".toList = "_1st".toList := by decide
+example : toRustFieldName F idTr "self".toList = "self_".toList := by decide
+example : legal .field (toRustFieldName F idTr "type".toList) = true := by decide
+example : toRustTypeName P idTr "user-profile".toList = "UserProfile".toList := by decide
+example : toRustTypeName P idTr "Option".toList = "OptionType".toList := by decide
+example : toRustTypeName P idTr "3d".toList = "T3d".toList := by decide
+example : legal .type (toRustTypeName P idTr "Option".toList) = true := by decide
+example : toRustConstName idTr "fooBar-9".toList = "FOO_BAR_9".toList := by decide
+example : toRustConstName idTr "9 lives".toList = "_9_LIVES".toList := by decide
+example : legal .const (toRustConstName idTr "self".toList) = true := by decide
+example : ensureUnique "a".toList ["a".toList, "a2".toList] = some "a3".toList := by decide
+example : ensureUniqueSnake "a".toList ["a".toList, "a_2".toList] = some "a_3".toList := by decide
+
+-- each exceptional class of `field_legal_char` / `type_legal_char` is inhabited (the judge says: illegal)
+example : toRustFieldName F idTr "crate".toList = "r#crate".toList ∧
+    legal .field (toRustFieldName F idTr "crate".toList) = false := by decide
+example : toRustFieldName F idTr "super".toList = "r#super".toList ∧
+    legal .field (toRustFieldName F idTr "super".toList) = false := by decide
+example : toRustFieldName F idTr "_".toList = ['_'] ∧
+    legal .field (toRustFieldName F idTr "_".toList) = false := by decide
+example : rawPassthrough "r#1".toList = true ∧ toRustFieldName F idTr "r#1".toList = "r#1".toList ∧
+    legal .field (toRustFieldName F idTr "r#1".toList) = false := by decide
+example : rawPassthrough "r#crate".toList = true ∧
+    legal .field (toRustFieldName F idTr "r#crate".toList) = false := by decide
+example : toRustTypeName P idTr "self".toList = "r#Self".toList ∧
+    legal .type (toRustTypeName P idTr "self".toList) = false := by decide
+
+-- the judge is not trivially true
+example : legal .field "fn".toList = false := by decide
+example : legal .type "Vec".toList = false := by decide
+example : legal .field "a-b".toList = false := by decide
+example : legal .field "r#fn".toList = true := by decide
 
 end Oas3.Props.C09
